@@ -119,7 +119,7 @@ Definition lead_action (n : dnode) (sc : scope) : action :=
 Definition edge_oracle (n : dnode) (a : action) : oracle :=
   fun sc _ => if scope_eqb sc (scope_of n) then a else lead_action n sc.
 Definition edge_request : request :=
-  mkQ 1000 (fun _ => 7%N) true (fun _ => Some (true, 60000%Z)) (fun _ => None) (fun _ => []).
+  mkQ 1000 (fun _ => 7%N) true (fun _ => Some (true, 60000%Z)) (fun _ => None) (fun _ => []) (fun _ _ => Some 601).
 Definition warm : persistent := mkP [(7%N, mkItem 50000 0 0)] [] [].
 
 Fixpoint after_node (n : dnode) (tr : list event) : option (option dnode) :=
@@ -132,7 +132,7 @@ Fixpoint after_node (n : dnode) (tr : list event) : option (option dnode) :=
 
 Definition run_edge (n : dnode) (a : action) (at_limit : bool) (p : persistent) : option (option dnode * bool) :=
   let r := if at_limit then max_varnish_restarts else 0 in
-  let c := mkC r XNone false false false None [] [] 0 false None in
+  let c := mkC r XNone false false false None [] [] 0 false None 500 None None in
   match run sm_fuel (edge_oracle n a) edge_request NRecv c p with
   | OK (c', _, err) =>
       match after_node n (rev (c_trace c')) with
